@@ -443,7 +443,8 @@ func (w *Workspace) removeUnreachableLocked(reachable map[string]bool) {
 		}
 		w.index.RemoveFile(path)
 		delete(w.includeGraph, path)
-		delete(w.reverseGraph, path)
+		// the directives that name the file stay in reverseGraph: a file that
+		// left because of a limit is still a file of the workspace
 		if w.resolved != nil {
 			delete(w.resolved.Files, path)
 			w.resolved.FileOrder = removeString(w.resolved.FileOrder, path)
